@@ -467,7 +467,7 @@ def random_config(rng, *, thorough: bool, small: bool = False, force=None, intco
                     for _ in range(rng.choice([0, 0, 1, 3]))],
         'n_dims': rng.choice([4, 4, 4, 0, 1, 2, 3]),
         'pix': rand_pix_recipe(rng, npix, nruns),
-        'exps': [rand_experiment(rng, i, indirect, per_detector_en) for i in range(nruns)],
+        'exps': _maybe_shared([rand_experiment(rng, i, indirect, per_detector_en) for i in range(nruns)], rng),
         'inst': rand_instrument(rng), 'samp': rand_sample(rng), 'dnd': rand_dnd(rng),
         # how things are handed over (none of it changes what is supplied)
         'bo_enum': rng.random() < 0.3,                     # byte order as Byteorder member instead of a string
@@ -543,6 +543,19 @@ def _vec(vu):
     return sc.vector(np.asarray(v, dtype='float64'), unit=u)
 
 
+def _maybe_shared(exps, rng):
+    """Now and then the later runs take orientation vectors and energies from the first run (and share its objects)."""
+    if len(exps) > 1 and rng.random() < 0.3:
+        for e in exps[1:]:
+            if e['emode'] == exps[0]['emode'] and e.get('dt', 'float64') == exps[0].get('dt', 'float64'):
+                for k in ('u', 'v', 'efix', 'en'):
+                    e[k] = exps[0][k]
+                if 'en_transposed' in exps[0] or 'en_transposed' in e:
+                    e['en_transposed'] = exps[0].get('en_transposed')
+                e['share'] = True
+    return exps
+
+
 def make_experiment(e):
     import scipp as sc
     from scippneutron.io.sqw import EnergyMode, SqwIXExperiment
@@ -562,6 +575,26 @@ def make_experiment(e):
         psi=_q(e['psi'], dt), u=sc.vector(e['u']), v=sc.vector(e['v']), omega=_q(e['omega'], dt),
         dpsi=_q(e['dpsi'], dt), gl=_q(e['gl'], dt), gs=_q(e['gs'], dt), filename=e['filename'],
         filepath=e['filepath'])
+
+
+def make_experiments(exps):
+    """The runs of one file.  Runs derived from a template (dataclasses.replace: what merging the runs of one
+    measurement looks like) SHARE the variable objects whose values they have in common - a writer that converts
+    a caller's array in place (byte order, unit) then damages every later run that holds the same object."""
+    import dataclasses
+
+    out = []
+    for e in exps:
+        x = make_experiment(e)
+        if out and e.get('share'):
+            first, fe = out[0], exps[0]
+            same = {k: getattr(first, k) for k in ('u', 'v', 'efix', 'en')
+                    if e[k] == fe[k] and e.get('dt', 'float64') == fe.get('dt', 'float64')
+                    and bool(e.get('en_transposed')) == bool(fe.get('en_transposed'))}
+            if same:
+                x = dataclasses.replace(x, **same)
+        out.append(x)
+    return out
 
 
 def make_sample(s):
@@ -718,7 +751,7 @@ def build_file(cfg, tmp: Path, tag: str, objs: dict | None = None) -> Built:
         for it in cfg['calls']:
             if it == 'pix':
                 r = builder.add_pixel_data(obj('pix', lambda: make_pixels(cfg, rows)),
-                                           experiments=obj('exps', lambda: [make_experiment(e) for e in cfg['exps']]),
+                                           experiments=obj('exps', lambda: make_experiments(cfg['exps'])),
                                            n_dims=cfg['n_dims'])
             elif it == 'det':
                 r = builder.add_empty_detector_params()
